@@ -379,18 +379,8 @@ fn expr_atom(input: &[u8], root_predicate: bool) -> IResult<&[u8], Expr<'_>> {
                 })
             },
         ),
-        map(
-            tuple((
-                unary_arith_op,
-                delimited(multispace0, |i| inner_expr(i, root_predicate), multispace0),
-            )),
-            |(op, operand)| {
-                Expr::ArithmeticFunc(ArithmeticFunc::Unary {
-                    op,
-                    operand: Box::new(operand),
-                })
-            },
-        ),
+        // try the comparison before the unary arithmetic expression,
+        // otherwise a negative literal on the left like `-1 == @.a` is taken as `-1`.
         map(
             tuple((
                 delimited(multispace0, |i| inner_expr(i, root_predicate), multispace0),
@@ -401,6 +391,18 @@ fn expr_atom(input: &[u8], root_predicate: bool) -> IResult<&[u8], Expr<'_>> {
                 op,
                 left: Box::new(left),
                 right: Box::new(right),
+            },
+        ),
+        map(
+            tuple((
+                unary_arith_op,
+                delimited(multispace0, |i| inner_expr(i, root_predicate), multispace0),
+            )),
+            |(op, operand)| {
+                Expr::ArithmeticFunc(ArithmeticFunc::Unary {
+                    op,
+                    operand: Box::new(operand),
+                })
             },
         ),
         map(
